@@ -49,6 +49,11 @@ CLAIMS = {
                   'ordered by a sequence number taken inside the ownership interval, are validated by TLC (Trace_Pools), every result is compared with its sequential result, and the same episodes run free under the Go race detector.',
              technique='TLC model checking of ZogPools with 2 goroutines + TLC trace validation of concurrent pool events + race detector stress with sequential oracle', ref='5 C08',
              note='Data-race freedom under the Go memory model is outside TLA+: it is observed by the race detector on the executions driven. Schedules are sampled, not enumerated, on the real code.'),
+ 'C16': dict(engine='ZogBuild', text='TLC explores all builder histories (Test/PostTransform/Pick/Omit/Extend/Merge) of bounded length over Go slices modelled with backing-array identity and checks Independent '
+                  '(what every schema can reach = its hand-written equivalent); histories (exhaustive short ones from every initial capacity, TLC\'s trap history for shared slices, random long ones) are executed on the '
+                  'real API and after EVERY operation every live schema is probed in Parse and Validate; TLC validates the observations against the ghost.',
+             technique='TLC model checking of ZogBuild + TLC trace validation of builder histories executed on the real API (Trace_Build)', ref='5 C16, 3.6',
+             note='Trusted: the probe (self-identifying fields, tests, transforms). Field schemas are shared by reference (documented shallow semantics).'),
 }
 NA_REASON = 'check not built yet (work in progress; DESIGN.md section 11 gives the build order)'
 checks = []
@@ -63,7 +68,8 @@ for p in props:
 m = dict(version=1, setup_cmd='bin/setup',
          hooks=dict(guard='verif', enable='go build -tags verif (harness module replaces github.com/Oudwins/zog with /repo)',
                     baseline_off_cmd='cd /repo && go test -vet=off -count=1 ./...', source_commits=hook_commits, add_only=True),
-         engines=[dict(name='ZogPools', path='/verif/spec/ZogPools.tla', serves_properties=['C07', 'C08'], kind_free_text='TLA+ model of pooled objects, call histories and goroutines (TLC) + history replay + TLC trace validation of pool events'),
+         engines=[dict(name='ZogBuild', path='/verif/spec/ZogBuild.tla', serves_properties=['C16'], kind_free_text='TLA+ model of builder histories over Go slices with backing-array identity + trace validation'),
+                  dict(name='ZogPools', path='/verif/spec/ZogPools.tla', serves_properties=['C07', 'C08'], kind_free_text='TLA+ model of pooled objects, call histories and goroutines (TLC) + history replay + TLC trace validation of pool events'),
                   dict(name='ZogExec', path='/verif/spec/ZogExec.tla', serves_properties=[p for p in props if p in CLAIMS and CLAIMS[p].get('engine', 'ZogExec') == 'ZogExec'],
                        kind_free_text='TLA+ traversal machine (TLC) + Go conformance harness + TLC trace validation')],
          checks=checks,
